@@ -588,14 +588,15 @@ impl Expression {
                             list.push((pas, sub_p));
                         }
                         ArrayFieldKind::Spread { value, .. } => {
-                            write!(s, "],")?;
+                            // (`Q.d`: the elements of a spread string are its characters)
+                            write!(s, "],Q.d(")?;
                             let (pas, sub_p) = value.to_proc_gen_rec_and_combine_paths(
                                 w,
                                 scopes,
                                 ExpressionLevel::Cond,
                                 &mut s,
                             )?;
-                            write!(s, ",[")?;
+                            write!(s, "),[")?;
                             need_array_concat = true;
                             next_need_comma_sep = false;
                             spread_sub_pas_list.push((pas, sub_p));
